@@ -332,7 +332,7 @@ def run(ctx):
 
     # ---- 2. Text.wrap: small scope, sampled by seed
     small = list(all_strings(ALPHA, 4))
-    n2 = 22000 if quick else 400000
+    n2 = 50000 if quick else 300000
     for k in range(n2):
         r = rng.random()
         if r < 0.35:
@@ -344,6 +344,20 @@ def run(ctx):
         wrap_case(ctx, gen_spec(rng, s), gen_args(rng))
     ctx.flush()
 
+    # ---- 2b. the glue: every combination of the text's own justify / overflow / no_wrap with the arguments
+    glue_texts = [("aa bbbbb cc  d", "s4", [(1, 9, "s1"), (4, 12, "s2")])]
+    if not quick:
+        glue_texts += [("あa\tb  ̀cc\n dd", "", [(0, 5, "s1")]), ("a b c d e f", "s1", [(2, 7, "s2"), (2, 7, "s2")])]
+    for s, base, spans in glue_texts:
+        for tj in JUSTIFY:
+            for j in JUSTIFY:
+                for to in OVERFLOW:
+                    for ov in OVERFLOW:
+                        for tnw in NOWRAP:
+                            for nw in NOWRAP:
+                                wrap_case(ctx, (s, base, spans, tj, to, tnw, 8), (4, j, ov, 8, nw), shape="glue")
+    ctx.flush()
+
     # ---- 3. exhaustive slices (thorough): every string <= 5 x every single span / every pair on short strings
     if not quick:
         for s in all_strings(ALPHA, 5):
@@ -351,6 +365,8 @@ def run(ctx):
                 wrap_case(ctx, (s, "s4", [], None, None, None, 8), (w, None, None, 8, None), shape="exh0")
         for s in all_strings(["a", " ", "あ", "\n"], 4, 2):
             sp = all_spans(len(s), ["s1", "s2"])
+            if len(s) == 4:
+                sp = [x for x in sp if rng.random() < 0.45]
             for a in sp:
                 for b in sp:
                     for w in (2, 3):
@@ -358,9 +374,9 @@ def run(ctx):
         ctx.flush()
 
     # ---- 4. beyond the small scope: prose up to 60 characters, widths up to 200, up to 4 spans
-    n4 = 2500 if quick else 150000
+    n4 = 3000 if quick else 100000
     for k in range(n4):
-        s = gen_prose(rng, rng.randint(8, 60))
+        s = gen_prose(rng, rng.randint(8, 60) if rng.random() < 0.9 else rng.randint(60, 300))
         spec = gen_spec(rng, s, kmax=4)
         w = rng.choice([2, 3, 4, 5, 6, 8, 10, 13, 20, 40, rng.randint(2, 200)])
         _, j, ov, ts, nw = gen_args(rng)
@@ -372,7 +388,7 @@ def run(ctx):
     ctx.flush()
 
     # ---- 5. Lines.justify and get_style_at_offset on their own (lines that wrap itself never produces included)
-    n5 = 6000 if quick else 120000
+    n5 = 8000 if quick else 120000
     jalpha = ["a", "b", " ", " ", "あ", "̀", "　"]
     for k in range(n5):
         specs = [gen_spec(rng, gen_string(rng, 8, jalpha), attrs=False) for _ in range(rng.choice([1, 2, 2, 3]))]
@@ -410,7 +426,37 @@ def replay(ctx, case):
 
 
 MANIFEST = {
-    "text": "TODO",
-    "note": "TODO",
+    "text": (
+        "Lean 4 theorems over an executable model of rich/_wrap.py (words, divide_line incl. the fold path through "
+        "chop_cells), Text.wrap (split on newlines, tab expansion, no_wrap, divide, rstrip_end, Lines.justify, truncate), "
+        "Lines.justify (left/center/right/full) and Text.get_style_at_offset, on top of the C05 Text model and the C13 cell "
+        "model; all for an arbitrary width function with cw ' ' = 1, cw '…' = 1, cw c <= 2 (proved for rich's table), "
+        "arbitrary opaque style names, and unbounded texts / span sets / widths >= 2.  Proved: divideLine_offsets "
+        "(strictly increasing, inside (0,len)); divideLine_pieces_fit; break_only_when_too_wide (an offset between two "
+        "non-whitespace characters lies in a regex word whose stripped form is wider than the width, and only with fold); "
+        "wrap_lines_fit (whole Text.wrap, every justify mode incl. full, every variant: each line <= width unless overflow "
+        "ignore); divide_effStyle (Text.divide at ascending offsets cuts the styled string: every character keeps base "
+        "style + covering spans in original order, for overlapping/nested/duplicated/empty spans); wrapLine_fold_keeps "
+        "(per paragraph, fold, justify default/left/center/right: the non-whitespace (character, effective style) stream "
+        "of the produced lines equals the paragraph's); wrap_fold_keeps_nonspace_partial (the same for the whole "
+        "Text.wrap incl. the newline split, texts without tabs); wrapLine_style_preserved (every overflow mode, no_wrap "
+        "on or off: each produced line is blanks + a prefix of its piece of the styled string, every character with exactly "
+        "its effective style, + blanks/ellipsis).  Two genuine defects of rich 9.10.0 are carried as variant flags with "
+        "machine-checked witnesses (old_wrap_reorders_styles, old_justify_negative_pad); the full theorems are proved for "
+        "the repaired variant.  The model is tied to the real code on every run by differential execution (complete line "
+        "state + rendering through the real Text.render) and the four statements are evaluated directly on rich's output."
+    ),
+    "note": (
+        "partial: (1) justify='full' (Text.split(' ') + Text('').join) is modelled and compared but the keeps/style theorems "
+        "are proved for default/left/center/right only (wrap_lines_fit covers full); (2) tab expansion (Text.expand_tabs, "
+        "C05) has no proved view lemma: the whole-text theorem assumes no tab, the per-paragraph theorems speak about the "
+        "paragraph after tab expansion; (3) styles are opaque names: 'carries exactly the style' is equality of the list of "
+        "names applied in order (free monoid), and in the direct evaluation equality up to the laws every rich Style "
+        "satisfies ('' neutral, x+x = x, x+y+x = y+x) because tab expansion and full justification re-apply the base style; "
+        "(4) theorems are about the repaired variant (pending_fixes/C05-divide-order-alias.diff, "
+        "pending_fixes/C02-justify-negative-pad.diff); on the released code the check reports both defects; (5) the "
+        "whitespace class is the running Python's str.isspace (generated table), width < 2, negative widths, control "
+        "characters and inverted spans are outside the statement."
+    ),
     "design_ref": "DESIGN.md section 7 (C02), section 8",
 }
